@@ -14,6 +14,11 @@ CLAIMED = {
             "len(enc(args)) for arbitrary argument bytes (incl. CR/LF/NUL/non-UTF-8) and every strict prefix is 'need more'; deserialize(serialize(v)) = v for bounded reply "
             "trees; error replies quoting arbitrary client bytes stay one frame; the real clientCxn inbound-buffer code dispatches two pipelined commands in order for every "
             "cutting of the stream into <= 3 segments and writes cut-independent reply bytes", "5/C01"),
+    "C06": ("bounded symbolic model checking: (L2) 147 command templates covering the data commands x the target key in each of 5 type states (with/without TTL), symbolic "
+            "values and unconstrained int64 arguments through the real dispatcher, with the monitors 'error reply => every key/value/expiry unchanged', 'no empty "
+            "list/hash/set', 'one type per key with matching payload', dictionary placement invariant, no panic; RENAME/RENAMENX/COPY[REPLACE] on every type incl. "
+            "source = destination carrying value and expiry; DEL/UNLINK/EXISTS/TOUCH/TYPE/DBSIZE/KEYS/RANDOMKEY against the set of live keys; SORT; redisGlob against "
+            "Redis' stringmatchlen for all patterns <= 3 (4) characters over the glob alphabet", "5/C06"),
     "C09": ("bounded symbolic model checking of transaction programs (1..4 steps quick, 5 thorough; each step a symbolic choice among MULTI, EXEC, DISCARD, WATCH, UNWATCH, a "
             "valid write, a command failing at run time, commands rejected at queue time (unknown name, bad arity) and a blocking pop) through the real dispatcher against the "
             "multi.c state machine: reply class of every step, queue/normal mode, no effect while queueing (observer connection between steps), one reply per queued command, "
